@@ -108,3 +108,67 @@ func vC12Check(s string) {
 		vAssert(g == wc.String(), "the URL handed to the loader differs from RFC 3986 resolution of the $ref against the base")
 	}
 }
+
+// two hops: the second reference sits in the document the first one designates and is resolved against
+// that document's location - also when that location has the referring document's URL as a string prefix
+var vC12Hops = [][2]string{
+	{"http://h.example/api/v1", "v1.1/defs.json"},              // target URL starts with the text of the base URL
+	{"file:///w/spec.json", "spec.json.d/defs.json"},           // the same for files
+	{"file:///a/b/base.json", "c/defs.json"},                   // a sub-directory
+	{"https://h.example:8443/r/s/base.json", "../t/defs.json"}, // a sibling directory
+}
+
+func vh_C12_twohops() {
+	hop := vC12Hops[vChoose(len(vC12Hops), "hop")]
+	base, first := hop[0], hop[1]
+	n := 1 + vChoose(vParam("hop_len", 3), "len")
+	s := vNondetStr("ref", n)
+	for i := 0; i < n; i++ {
+		vAssume(vInSet(s[i], vC12Alphabet))
+	}
+	vAssume(utf8.ValidString(s))
+	for i := 0; i+2 < len(s); i++ {
+		vAssume(!(s[i] == '%' && s[i+1] == '2' && (s[i+2] == 'e' || s[i+2] == 'E')))
+	}
+	r2, err := NewRef(s)
+	if err != nil {
+		return
+	}
+	u := r2.GetURL()
+	vAssume(u.User == nil && u.Opaque == "" && u.RawQuery == "" && !u.ForceQuery && u.Scheme == "" && u.Host == "")
+	vAssume(u.Path != "") // fragment-only: no second document
+	vAssume(!strings.HasSuffix(u.Path, "/") && !strings.HasSuffix(u.Path, "/.") && !strings.HasSuffix(u.Path, "/..") && u.Path != "." && u.Path != "..")
+	bu, _ := url.Parse(base)
+	fu, _ := url.Parse(first)
+	d1 := bu.ResolveReference(fu).String()
+	d1text := `{"definitions":{"A":{"$ref":"` + s + `"}}}`
+	var got []string
+	loader := func(p string) (json.RawMessage, error) {
+		got = append(got, p)
+		if p == d1 {
+			return json.RawMessage(d1text), nil
+		}
+		return nil, vErrLoad
+	}
+	sch := Schema{SchemaProps: SchemaProps{Ref: MustCreateRef(first + "#/definitions/A")}}
+	err = ExpandSchemaWithBasePath(&sch, nil, &ExpandOptions{RelativeBase: base, PathLoader: loader})
+	vAssert(err != nil, "expansion succeeds although the loader refuses the second document")
+	vAssert(len(got) >= 2 && got[0] == d1, "the first document is not requested first, or the second document is never requested")
+	if len(got) < 2 {
+		return
+	}
+	d1u, _ := url.Parse(d1)
+	ru, perr := url.Parse(s)
+	if perr != nil {
+		return
+	}
+	want := d1u.ResolveReference(ru)
+	want.Fragment, want.RawFragment = "", ""
+	wc, werr := NewRef(want.String())
+	if werr != nil {
+		return
+	}
+	for _, g := range got[1:] {
+		vAssert(g == wc.String() || g == d1, "second hop: the URL handed to the loader differs from RFC 3986 resolution of the $ref against the location of the document that contains it")
+	}
+}
